@@ -103,6 +103,11 @@ class DecoderFacts:
 
     def _edge_gen(self, node, label, atoms):
         out = []
+        t = node.info.get("term")
+        if self.world is not None and t and t.get("c") is not None:
+            rs, unknown = reads_of(self, t["c"], self.world)
+            for a, b in rs:
+                out.append(("ev", "read", a, b))
         for a in atoms:
             if a[0] == "cmp" and a[2] == "==" and self._is_bin_byte(a[1]):
                 out.append(("ev", "tag"))
@@ -114,6 +119,12 @@ class DecoderFacts:
         for c in ir.calls_in(self.fn, node.el.e):
             if c[1] and SETINF.match(c[1]) and c[2] and ir.base_var(self.fn, c[2][0]) == self.obj:
                 out.append(("ev", "infty", ("v", self.obj)))
+        if self.world is not None:
+            rs, unknown = reads_of(self, node.el.e, self.world)
+            for a, b in rs:
+                out.append(("ev", "read", a, b))
+            if unknown:
+                out.append(("ev", "read?"))
         return out
 
     def branches_on_input(self):
@@ -270,7 +281,15 @@ def rule_decoders(ctx, prog, chk):
                     if idx == ("i", 0) and D.accepting_reachable_from(n, l):
                         acc_tags.add(kv)
             # ---- DEC-COVER
-            cov, unknown, over = coverage(D, w)
+            cov_all, unknown, over = coverage(D, w)
+            # bytes read on *every* accepting path (must-facts at the accepting returns)
+            cov = None
+            for n, s in acc:
+                rs = set((a[2], a[3]) for a in s if a[0] == "ev" and a[1] == "read")
+                cov = rs if cov is None else (cov & rs)
+                if ("ev", "read?") in s:
+                    unknown = True
+            cov = sorted(cov or ())
             if unknown:
                 chk.note("DEC-COVER: %s reads the buffer at a non-constant offset for len=%d; no claim for that length" % (fn.name, w))
             else:
@@ -351,6 +370,41 @@ def small_values(fn, e):
             return None
         return a | b
     return None
+
+
+def reads_of(D, e, L):
+    """constant byte ranges of `bin` read by element tree e in the world len == L"""
+    fn = D.fn
+    ranges = []
+    unknown = False
+    for sub in ir.walk(fn, e):
+        if sub[0] == "x" and ir.base_var(fn, sub[1]) == D.bin:
+            idx = ir.strip_casts(fn.resolve(sub[2]))
+            base_off = const_offset(fn, sub[1], D.bin)
+            if idx[0] == "i" and isinstance(idx[1], int) and base_off is not None:
+                ranges.append((base_off + idx[1], base_off + idx[1] + 1))
+            else:
+                unknown = True
+        elif sub[0] == "c":
+            for i, a in enumerate(sub[2]):
+                if ir.base_var(fn, a) != D.bin:
+                    continue
+                aa = ir.strip_casts(fn.resolve(a))
+                if aa[0] == "x" or (aa[0] == "u" and aa[1] == "*"):
+                    continue
+                off = const_offset(fn, a, D.bin)
+                nn = None
+                if i + 1 < len(sub[2]):
+                    la = ir.strip_casts(fn.resolve(sub[2][i + 1]))
+                    if la[0] == "i" and isinstance(la[1], int):
+                        nn = la[1]
+                    elif la == ["v", D.len]:
+                        nn = L
+                if off is None or nn is None:
+                    unknown = True
+                else:
+                    ranges.append((off, off + nn))
+    return ranges, unknown
 
 
 def coverage(D, L):
